@@ -247,8 +247,9 @@ class _FuncInfo:
                 if isinstance(p1, ast.Attribute) and p1.attr == "append" and isinstance(p2, ast.Call) and len(p2.args) == 1 and ((isinstance(p2.args[0], ast.Name) and p2.args[0].id in line_vars) or _single_next(p2.args[0], lits)):
                     napp += 1
                     continue
-                # `L[-1]` read (peek at the line just collected): no effect on the pairing
-                if isinstance(p1, ast.Subscript) and p1.value is n and isinstance(p1.ctx, ast.Load):
+                # `L[-1]` read (peek at the line just collected): no effect on the pairing (a full slice that a
+                # loop iterates -- `for x in L[::-1]` -- is the restoring loop, judged below)
+                if isinstance(p1, ast.Subscript) and p1.value is n and isinstance(p1.ctx, ast.Load) and not (isinstance(p1.slice, ast.Slice) and p1.slice.lower is None and p1.slice.upper is None and isinstance(p2, ast.For) and p2.iter is p1):
                     continue
                 # `while L: <lit>.back(L.pop())`: the restoring loop in its pop form
                 if isinstance(p1, ast.While) and p1.test is n and len(p1.body) == 1 and not p1.orelse and isinstance(p1.body[0], ast.Expr):
@@ -265,6 +266,8 @@ class _FuncInfo:
                     lp = p1
                 elif isinstance(p1, ast.Call) and isinstance(p1.func, ast.Name) and p1.func.id == "reversed" and isinstance(p2, ast.For) and p2.iter is p1:
                     lp = p2
+                elif isinstance(p1, ast.Subscript) and p1.value is n and isinstance(p1.slice, ast.Slice) and p1.slice.lower is None and p1.slice.upper is None and isinstance(p2, ast.For) and p2.iter is p1:
+                    lp = p2  # `for x in L[::-1]` / `L[:]`: every element once (the order is R11's business)
                 if lp is not None and isinstance(lp.target, ast.Name) and len(lp.body) == 1 and not lp.orelse and isinstance(lp.body[0], ast.Expr):
                     c0 = lp.body[0].value
                     if isinstance(c0, ast.Call) and isinstance(c0.func, ast.Attribute) and c0.func.attr == "back" and isinstance(c0.func.value, ast.Name) and c0.func.value.id in lits and len(c0.args) == 1 and isinstance(c0.args[0], ast.Name) and c0.args[0].id == lp.target.id:
@@ -517,6 +520,12 @@ class Consumption:
             return self.is_positive(f, e.left, depth) and self.is_positive(f, e.right, depth)
         if isinstance(e, ast.Call) and isinstance(e.func, ast.Name) and e.func.id == "len" and len(e.args) == 1:
             a = e.args[0]
+            if isinstance(a, ast.Name) and a.id in f.locals and a.id not in f.params:
+                # a local bound once to an entry of a constant table (`row = TABLE[key]; n = len(row)`)
+                defs = [n.value for n in f.own_nodes() if isinstance(n, ast.Assign) and any(isinstance(t, ast.Name) and t.id == a.id for t in n.targets)]
+                others = [n for n in f.own_nodes() if isinstance(n, (ast.AugAssign, ast.For, ast.comprehension)) and any(isinstance(x, ast.Name) and x.id == a.id for x in ast.walk(n.target))]
+                if len(defs) == 1 and not others:
+                    a = defs[0]
             if isinstance(a, ast.Subscript) and isinstance(a.value, ast.Name):
                 r = self.prog.lookup(f, f.module, a.value.id)
                 if r and r[0] == "global":
